@@ -294,7 +294,7 @@ func runC17(r *Run) {
 	runC17Shapes(r)
 	runC17TcpSizes(r)
 	runC17Late(r)
-	r.Finish("all 256 values of header byte 2 x {00,80,random} byte 3 x sizes {12,13,100,512,1232,4095} with TCP answering, plus TC-set (and 1/4 of TC-clear) replies with TCP side {close after query, half frame, connection refused}; thorough adds all 65536 flag combinations; non-trivial = TC set or TCP fault; distinct by flags/size/TCP mode; routing: fresh upstreams built by NewUpstream with Opt = every subset of {Socks5 -> loopback observer, DialAddr -> the server with the URL naming a decoy server, Bootstrap -> decoy} and then random Opt (Socks5 -> loopback observer, DialAddr -> the server with the URL naming a decoy server, Bootstrap -> decoy, IdleTimeout, EnablePipeline, EnableHTTP3, TLSConfig) x {scheme written, omitted} x TC set/clear x TCP side {ans, close}: the TCP retry must arrive at the server that sent the truncated UDP reply, and nowhere else; UDP-side fault sequences on fresh upstreams (c17fault.go): 0-5 plain exchanges, then the upstream's connected UDP socket is made unwritable (shutdown(SHUT_WR) on the descriptor: every send fails) so that the query is repeated on a new socket, whose reply has TC set or clear x TCP side {ans, close}, 1-3 such rounds per upstream: exactly the caller's query bytes (taken before the call) must arrive over TCP, the reply must carry the caller's id and be the server's reply, the query buffer must be unchanged; replayed on the buffer-threading model (driver op faultx); well-formed queries (c17late.go): UDP reply shapes {bare 12-byte header, header+OPT, header+trailing bytes (all QDCOUNT=0), question echoed as is / 0x20-flipped / with an answer} x TC set/clear x random other flags and rcodes x TCP side {ans, close}: a TC reply of every shape must be followed by the same query over TCP and the TCP reply, a reply without TC must come back byte for byte with no TCP connection (replayed as xchg lines); TCP reply sizes: truncated queries whose TCP reply has exactly {13, 14, 511..513, 1232, 4095..4097, 16383, 16384, 32767, 32768, 65533, 65534, 65535} and seeded sizes in 13..65535 bytes (near powers of two, the top 64 sizes, uniform): the caller must get that reply byte for byte (a 12-byte TCP reply is sent too, its outcome only counted); late TCP replies: per fresh upstream 3-6 queries where the TCP side holds the reply to a truncated query until the caller's context (150-350 ms) has ended and writes it when the next query arrives over TCP (or earlier, with or without a pause): every TCP reply is a function of the whole query (id, question, checksum) and the caller of the next truncated query must get exactly the server's TCP reply to its own query")
+	r.Finish("all 256 values of header byte 2 x {00,80,random} byte 3 x sizes {12,13,100,512,1232,4095} with TCP answering, plus TC-set (and 1/4 of TC-clear) replies with TCP side {close after query, half frame, connection refused}; thorough adds all 65536 flag combinations; non-trivial = TC set or TCP fault; distinct by flags/size/TCP mode; routing: fresh upstreams built by NewUpstream with Opt = every subset of {Socks5 -> loopback observer, DialAddr -> the server with the URL naming a decoy server, Bootstrap -> decoy} and then random Opt (Socks5 -> loopback observer, DialAddr -> the server with the URL naming a decoy server, Bootstrap -> decoy, IdleTimeout, EnablePipeline, EnableHTTP3, TLSConfig) x {scheme written, omitted} x TC set/clear x TCP side {ans, close}: the TCP retry must arrive at the server that sent the truncated UDP reply, and nowhere else; UDP-side fault sequences on fresh upstreams (c17fault.go): 0-5 plain exchanges, then the upstream's connected UDP socket is made unwritable (shutdown(SHUT_WR) on the descriptor: every send fails) so that the query is repeated on a new socket, whose reply has TC set or clear x TCP side {ans, close}, 1-3 such rounds per upstream: exactly the caller's query bytes (taken before the call) must arrive over TCP, the reply must carry the caller's id and be the server's reply, the query buffer must be unchanged; replayed on the buffer-threading model (driver op faultx); well-formed queries (c17late.go): UDP reply shapes {bare 12-byte header, header+OPT, header+trailing bytes (all QDCOUNT=0), question echoed as is / 0x20-flipped / with an answer} x TC set/clear x random other flags and rcodes x TCP side {ans, close}: a TC reply of every shape must be followed by the same query over TCP and the TCP reply, a reply without TC must come back byte for byte with no TCP connection (replayed as xchg lines); TCP reply sizes: truncated queries whose TCP reply has exactly {12 (a bare header), 13, 14, 511..513, 1232, 4095..4097, 16383, 16384, 32767, 32768, 65533, 65534, 65535} and seeded sizes in 13..65535 bytes (near powers of two, the top 64 sizes, uniform): the caller must get that reply byte for byte; late TCP replies: per fresh upstream 3-6 queries where the TCP side holds the reply to a truncated query until the caller's context (150-350 ms) has ended and writes it when the next query arrives over TCP (or earlier, with or without a pause): every TCP reply is a function of the whole query (id, question, checksum) and the caller of the next truncated query must get exactly the server's TCP reply to its own query")
 }
 
 // ---- routing: "sent again over TCP to the same server" ----------------------
